@@ -8,6 +8,9 @@ pub enum AKind {
     Future,
     Stream,
     Sink,
+    /// one object that is both a Stream and a Sink (a framed connection), wrapped by `in_span`:
+    /// the span is released by whichever half finishes first, the other half stays usable
+    Duplex,
 }
 
 #[derive(Clone, Copy, Debug, PartialEq, Eq)]
